@@ -357,7 +357,9 @@ func c19Matrix(f func(admitted, fallback bool, handler string)) {
 }
 
 var c19Bools = []bool{true, false}
-var c19Handlers = []string{"ok", "err", "panic"}
+// "errtyped": the handler fails with the framework's own error type carrying a client-error status (where the
+// framework has one; elsewhere it is a second plain failure)
+var c19Handlers = []string{"ok", "err", "panic", "errtyped"}
 
 func c19Name(ep string, admitted, fallback bool, handler string) string {
 	if c19PairTag != "" {
@@ -404,7 +406,7 @@ func c19GearCase(t *testing.T, admitted, fallback bool, handler string) {
 	router.Handle(http.MethodGet, "/c19", func(ctx *gear.Context) error {
 		c.handlerCalled()
 		switch handler {
-		case "err":
+		case "err", "errtyped":
 			return errors.New("c19 handler error")
 		case "panic":
 			panic("c19 handler panic")
